@@ -101,7 +101,7 @@ def op_text(o) -> str:
     raise TypeError(o)
 
 
-def render_text(items, defines=(), bracket_first: bool = False) -> str:
+def render_text(items, defines=(), bracket_first=False, bracket_sep: str = ", ") -> str:
     lines = ["# NETQASM 0.0", "# APPID 0"]
     for k, v in defines:
         lines.append(f"# DEFINE {k} {v}")
@@ -110,9 +110,10 @@ def render_text(items, defines=(), bracket_first: bool = False) -> str:
             lines.append(f"{it[1]}:")
         else:
             mn, ops = it
-            if bracket_first and ops and isinstance(ops[0], int):
-                # argument brackets: op(a) rest
-                lines.append(f"{mn}({ops[0]}) " + " ".join(op_text(o) for o in ops[1:]))
+            nb = int(bracket_first)
+            if nb and len(ops) >= nb and all(isinstance(o, int) for o in ops[:nb]):
+                # argument brackets: op(a, b) rest  (the bracketed operands come first)
+                lines.append(f"{mn}({bracket_sep.join(str(o) for o in ops[:nb])}) " + " ".join(op_text(o) for o in ops[nb:]))
             else:
                 lines.append(f"{mn} " + " ".join(op_text(o) for o in ops))
     return "\n".join(lines) + "\n"
@@ -147,10 +148,10 @@ def render_proto(items):
     return ProtoSubroutine(commands=cmds, netqasm_version=(0, 0), app_id=0)
 
 
-def assemble(items, form: str, defines=(), bracket_first=False):
+def assemble(items, form: str, defines=(), bracket_first=False, bracket_sep=", "):
     from netqasm.lang.parsing.text import assemble_subroutine, parse_text_subroutine
     if form == "text":
-        return parse_text_subroutine(render_text(items, defines, bracket_first))
+        return parse_text_subroutine(render_text(items, defines, bracket_first, bracket_sep))
     return assemble_subroutine(render_proto(items))
 
 
@@ -335,13 +336,14 @@ def dynamic(instrs, labels, asm, amap, case, part, form) -> None:
                       "program (a literal disturbed a named register, or an operand changed)", case, {"diff": diffs, "assembled": asm})
 
 
-def check_program(items, form: str, part, defines=(), expanded_items=None, bracket_first=False, family="grammar") -> None:
+def check_program(items, form: str, part, defines=(), expanded_items=None, bracket_first=False, family="grammar",
+                  bracket_sep=", ") -> None:
     """items: source (with macro uses if defines); expanded_items: the source after my own macro expansion."""
-    case = {"form": form, "source": render_text(items, defines, bracket_first), "family": family}
+    case = {"form": form, "source": render_text(items, defines, bracket_first, bracket_sep), "family": family}
     ref_items = expanded_items if expanded_items is not None else items
     instrs, labels = split_source(ref_items)
     try:
-        sub = assemble(items, form, defines, bracket_first)
+        sub = assemble(items, form, defines, bracket_first, bracket_sep)
     except RuntimeError as exc:
         if "no registers left" in str(exc):
             named = named_registers(instrs)
@@ -532,6 +534,23 @@ def shard_macros(shard):
             part["distinct"] += 1
             check_program([it], "text", part, bracket_first=True, family="brackets")
             count(part, "bracket-programs")
+    # several bracketed arguments, with and without blanks around the comma
+    two = [("beq", [1, 2, L("A")]), ("set", [R(0), 5]), ("label:", "A")]
+    for sep in (",", ", ", " , ", ",  "):
+        part["evals"] += 1
+        part["distinct"] += 1
+        check_program(two, "text", part, bracket_first=2, bracket_sep=sep, family="brackets")
+        count(part, "bracket-programs")
+    # macro values in braces that contain blanks (the braces group several words into one value)
+    for defines, items, expanded in (
+            ([("acc", "{R1 R1}")], [("add", [R(0), "$acc"])], [("add", [R(0), R(1), R(1)])]),
+            ([("pair", "{1 2}")], [("beq", ["$pair", L("A")]), ("set", [R(0), 5]), ("label:", "A")],
+             [("beq", [1, 2, L("A")]), ("set", [R(0), 5]), ("label:", "A")]),
+            ([("src", "{7 @0[1]}")], [("store", ["$src"])], [("store", [7, E(0, 1)])])):
+        part["evals"] += 1
+        part["distinct"] += 1
+        check_program(items, "text", part, defines=defines, expanded_items=expanded, family="macro")
+        count(part, "macro-brace-values")
     return part
 
 
@@ -690,7 +709,8 @@ def run(ctx):
     ctx.require("mix-combinations", sum(2 ** len(t[2]) for t in MIX_TEMPLATES))
     ctx.require("mix-mixed", 20)
     ctx.require("label-name-pairs", len(LABEL_NAMES))
-    ctx.require("bracket-programs", 3)
+    ctx.require("bracket-programs", 7)
+    ctx.require("macro-brace-values", 3)
     ctx.require("dyn/done", 1000)
     ctx.require("dyn/fault", 10)
     ctx.require("dyn/blocked", 1)
